@@ -26,7 +26,7 @@ import (
 
 var byzMutations = []string{"drop-first", "dup-first", "swap-first", "two-msgs", "second-block-msg", "with-relayer-msg", "other-author", "other-author-consistent", "fee-recipient", "fork-parent",
 	"beacon-root", "blob-gas", "future-ts", "goat-omit-last", "goat-omit-all", "goat-dup", "goat-reorder", "goat-flip", "goat-count", "bad-sig", "timeout-height", "memo",
-	"too-many", "garbage-first", "nil-payload", "foreign-msg-tx", "non-proposer-relayer-tx", "parent-field", "number-field", "extra-data-short", "field-length", "field-length"}
+	"too-many", "garbage-first", "nil-payload", "foreign-msg-tx", "non-proposer-relayer-tx", "parent-field", "number-field", "extra-data-short", "field-length", "field-length", "block-msg-inside-relayer-tx"}
 
 var junkKinds = []string{"stale-seq", "ex-proposer", "expired", "foreign", "block-msg", "valid-empty-vote", "valid-empty-vote", "valid-empty-vote", "bad-sig", "memo"}
 
@@ -337,6 +337,13 @@ func (w *World) mutateProposal(n *Node, h int64, t time.Time, pv *cmttypes.Valid
 		f := fields[name]
 		if len(*f) > 0 && (*f)[0] == 0 && r.Chance(0.5) {
 			*f = append([]byte{}, (*f)[1:]...) // a leading zero byte dropped
+		} else if r.Chance(0.35) {
+			// shorter than canonical: the tail only, a single byte, or nothing at all
+			keep := pick(r, []int{0, 1, len(*f) / 2, len(*f) - 1})
+			if keep < 0 {
+				keep = 0
+			}
+			*f = append([]byte{}, (*f)[len(*f)-keep:]...)
 		} else {
 			pad := r.Bytes(1 + r.Intn(12))
 			if r.Chance(0.3) {
@@ -350,6 +357,27 @@ func (w *World) mutateProposal(n *Node, h int64, t time.Time, pv *cmttypes.Valid
 		m := clone()
 		m.Payload.ExtraData = m.Payload.ExtraData[:len(m.Payload.ExtraData)-1]
 		return resign(m, nil)
+	case "block-msg-inside-relayer-tx":
+		// a later transaction, signed by the relayer proposer with this height as time-out, that
+		// carries a relayer message first and a (second) block message after it
+		cv := w.chainView()
+		if cv == nil || cv.Proposer == nil {
+			return nil, false
+		}
+		first := sdk.Msg(&relayertypes.MsgAcceptProposerRequest{Proposer: cv.Proposer.Addr(), Epoch: cv.Rel.Epoch})
+		bm := clone()
+		if r.Chance(0.5) {
+			bm.Proposer = cv.Proposer.Addr()
+		}
+		msgs := []sdk.Msg{first, bm}
+		if r.Chance(0.3) {
+			msgs = []sdk.Msg{first, first, bm}
+		}
+		raw, err := w.proposerTx(cv.Proposer, msgs, TxOpts{TimeoutHeight: uint64(h)})
+		if err != nil {
+			return nil, false
+		}
+		return append(append([][]byte{}, txs...), raw), true
 	case "foreign-msg-tx", "non-proposer-relayer-tx":
 		cv := w.chainView()
 		if cv == nil || cv.Proposer == nil {
@@ -403,6 +431,16 @@ func (w *World) proposalConditions(verifier *Node, h int64, pv *cmttypes.Validat
 				if i == 0 && len(tx.GetMsgs()) == 1 {
 					first = bm
 				}
+			}
+		}
+	}
+	// a block message anywhere but alone in the first transaction makes that transaction
+	// inadmissible to a block (C10) as well as the proposal malformed (C08)
+	for i, raw := range txs {
+		tx, _ := w.decodeTx(raw)
+		for _, mm := range tx.GetMsgs() {
+			if _, ok := mm.(*goatmodtypes.MsgNewEthBlock); ok && (i != 0 || len(tx.GetMsgs()) != 1) && (i != 0 || blockMsgs == 1) {
+				return false, fmt.Sprintf("transaction %d is not admissible: block message not first and alone in the block (%d block messages)", i, blockMsgs)
 			}
 		}
 	}
@@ -517,6 +555,15 @@ func (w *World) judgeVerdicts(pn *Node, h int64, t time.Time, pv *cmttypes.Valid
 		if accept {
 			if ok, why := w.proposalConditions(n, h, pv, txs); !ok && !n.lastFaulted {
 				w.violate("C08", "malformed-proposal-accepted", why, "height %d: node %d accepted a proposal (%s %s) although: %s", h, id, spec.Kind, spec.Mut, why)
+				if strings.Contains(why, "is not admissible") {
+					// C10, process mode: a transaction is admitted to a block only if ...
+					w.Stats.OracleEvals["C10"]++
+					shape := why[strings.Index(why, "is not admissible"):]
+					if j := strings.Index(shape, " ("); j > 0 {
+						shape = shape[:j]
+					}
+					w.violate("C10", "inadmissible-tx-accepted-in-proposal", shape, "height %d: node %d accepted a proposal (%s %s) although: %s", h, id, spec.Kind, spec.Mut, why)
+				}
 			}
 			continue
 		}
